@@ -1,6 +1,7 @@
 package main
 
 import (
+	"encoding/hex"
 	"encoding/json"
 	"github.com/cloudwego/gopkg/protocol/thrift"
 	"math/rand"
@@ -241,6 +242,39 @@ func msgStructCases(c *Ctx) []json.RawMessage {
 			}
 		}
 		add(s)
+	}
+	// hand-built messages (what a peer that is not this library may send): EXCEPTION payloads with either field left
+	// out, in either order, with unknown fields around them; replies whose struct leaves fields out
+	bp := thrift.Binary
+	excBodies := [][]byte{
+		{0}, // just STOP: both fields at their defaults
+		bp.AppendFieldStop(bp.AppendI32(bp.AppendFieldBegin(nil, thrift.I32, 2), 6)),
+		bp.AppendFieldStop(bp.AppendI32(bp.AppendFieldBegin(nil, thrift.I32, 2), -1)),
+		bp.AppendFieldStop(bp.AppendString(bp.AppendFieldBegin(nil, thrift.STRING, 1), "")),
+		bp.AppendFieldStop(bp.AppendString(bp.AppendFieldBegin(nil, thrift.STRING, 1), "boom")),
+		bp.AppendFieldStop(bp.AppendString(bp.AppendFieldBegin(nil, thrift.STRING, 1), "a longer message text")),
+		bp.AppendFieldStop(bp.AppendString(bp.AppendFieldBegin(bp.AppendI32(bp.AppendFieldBegin(nil, thrift.I32, 2), 3), thrift.STRING, 1), "rev")),
+		bp.AppendFieldStop(bp.AppendI32(bp.AppendFieldBegin(bp.AppendBool(bp.AppendFieldBegin(nil, thrift.BOOL, 9), true), thrift.I32, 2), 4)),
+		bp.AppendFieldStop(bp.AppendI64(bp.AppendFieldBegin(bp.AppendString(bp.AppendFieldBegin(nil, thrift.STRING, 1), "x"), thrift.I64, 7), 5)),
+	}
+	for i, body := range excBodies {
+		for _, name := range []string{"Echo", "", "m"} {
+			msg := append(bp.AppendMessageBegin(nil, name, thrift.EXCEPTION, int32(7+i)), body...)
+			add(StructCase{Schema: "AppEx", Mode: "msgexc", RawHex: hex.EncodeToString(msg)})
+			add(StructCase{Schema: "AppEx", Mode: "msgexc", RawHex: hex.EncodeToString(append(msg, 0xAA, 0xBB))})
+		}
+	}
+	replyBodies := [][]byte{
+		{0},
+		bp.AppendFieldStop(bp.AppendString(bp.AppendFieldBegin(nil, thrift.STRING, 2), "caller-only")),
+		bp.AppendFieldStop(bp.AppendString(bp.AppendFieldBegin(nil, thrift.STRING, 3), "")),
+		bp.AppendFieldStop(bp.AppendMapBegin(bp.AppendFieldBegin(nil, thrift.MAP, 6), thrift.STRING, thrift.STRING, 0)),
+	}
+	for i, body := range replyBodies {
+		for _, mt := range []thrift.TMessageType{thrift.REPLY, thrift.CALL, thrift.ONEWAY} {
+			msg := append(bp.AppendMessageBegin(nil, "Echo", mt, int32(i)), body...)
+			add(StructCase{Schema: "Base", Mode: "msg", Mt: int(mt), RawHex: hex.EncodeToString(msg)})
+		}
 	}
 	return out
 }
